@@ -2337,6 +2337,11 @@ class ConvertPythonInstance:
             # from the current run
             info._discard_instantiation()
 
+        # function definitions are cached together with the values of the
+        # global/nonlocal names they use, discard them so future compilations
+        # see the current values
+        FunctionDefinition._discard_known_definitions()
+
     def apply(self, inp):
         assert (
             _active_converter_instance is self
